@@ -278,7 +278,7 @@ RECURSIVE ConfFold(_, _, _, _)
 ConfFold(V, lg, lo, hi) == IF lo > hi THEN V ELSE ConfFold(ApplyCC(V, lg[lo].c), lg, lo + 1, hi)
 (* the configuration of a node that is not leader after its commit (= applied) index moved to c: the Ready cycle hands *)
 (* the newly committed entries to the application, which calls ApplyConfChange for each conf change; switchToConfig   *)
-(* 1665-1690 does nothing more on a non-leader                                                                         *)
+(* 1690-1694 does nothing more on a non-leader                                                                         *)
 FV(i, lg, c) == ConfFold(cfg[i], lg, commit[i] + 1, c)
 (* after a restart: newRaft 346-353 restores the ConfState of Storage.InitialState - raftsim's disk answers with the   *)
 (* genesis configuration while there is no snapshot (sim.go disk.InitialState) - and Config.Applied = 0, so the first  *)
